@@ -56,6 +56,8 @@ static ADesc gen_desc(Draw &d) {
   else if (mode == 2) {  // interleaving by type, listed outermost first, among the typed non-Group, non-NUMA levels above PU
     std::vector<int> cand; for (size_t i = 0; i + 1 < a.lv.size(); i++) if (a.lv[i].type != HWLOC_OBJ_GROUP && a.lv[i].type != HWLOC_OBJ_NUMANODE) cand.push_back((int)i);   // (the parser works on the description levels, before any merge)
     std::vector<int> sel; for (int x : cand) if (d.chance(1, 2)) sel.push_back(x);
+    // the types may be listed in any order (the first listed varies fastest), not only outermost first (seeded change C07)
+    if (sel.size() >= 2 && d.chance(1, 2)) { for (size_t i = sel.size(); i > 1; i--) std::swap(sel[i - 1], sel[d.raw() % i]); }
     if (!sel.empty()) { for (size_t k = 0; k < sel.size(); k++) pu.idx += (k ? ":" : "") + a.lv[sel[k]].name; pu.intlv = sel; /* (listing the PU level itself is not accepted by the parser - the specification is then ignored - and not documented) */ } }
   return a;
 }
